@@ -420,7 +420,30 @@ func rulePruneTogether(c *Ctx) {
 		return true
 	})
 	if pruneLoop == nil {
-		anchorFail("OnPrune: no loop advancing pr.indexOffset found")
+		// fall back: the loop that shrinks pr.nodes or deletes from pr.indices
+		ast.Inspect(fd.Body, func(n ast.Node) bool {
+			var body *ast.BlockStmt
+			switch x := n.(type) {
+			case *ast.ForStmt:
+				body = x.Body
+			case *ast.RangeStmt:
+				body = x.Body
+			default:
+				return true
+			}
+			ast.Inspect(body, func(m ast.Node) bool {
+				if call, ok := m.(*ast.CallExpr); ok {
+					if id, ok := call.Fun.(*ast.Ident); ok && id.Name == "delete" && len(call.Args) == 2 && isRecvField(info, call.Args[0], recv, "indices") {
+						pruneLoop = n
+					}
+				}
+				return true
+			})
+			return true
+		})
+	}
+	if pruneLoop == nil {
+		anchorFail("OnPrune: pruning loop not found")
 	}
 	hasDeleteIdx, hasShrink, hasOffset := false, false, false
 	ast.Inspect(pruneLoop, func(m ast.Node) bool {
